@@ -77,13 +77,14 @@ def run(chk):
                     continue
                 takes_interp = any(('Interp1D<' in a.get('ty', '') or 'Interp2D<' in a.get('ty', '')) for a in x.get('args', []))
                 hb = lib.body(nm)
-                if hb is not None and not nm.startswith(('Interp1D::', 'Interp2D::')):
-                    work.append(hb)       # a private helper: analysed like the strategy body itself
+                if hb is not None and (not nm.startswith(('Interp1D::', 'Interp2D::')) or hb.get('vis') != 'Public'):
+                    work.append(hb)       # a private (or crate-private) helper: analysed like the strategy body itself
                     continue
                 chk.ob('R20.2', "%s reaches the interpolator through %s, which is not one of the bracket accessors" % (path.split(' as ')[0], nm),
                        not takes_interp and hb is None, line_of(x), 'callee-%s-%s' % (path.split(' as ')[0], nm))
             for bb, x in lib.all_exprs(cur):
-                if x.get('k') == 'Field' and ('Interp1D<' in x['e']['ty'] or 'Interp2D<' in x['e']['ty']):
+                if x.get('k') == 'Field' and ('Interp1D<' in x['e']['ty'] or 'Interp2D<' in x['e']['ty']) and \
+                        not strip_generics(cur['def']).startswith(('Interp1D::', 'Interp2D::')):      # the interpolator's own methods own its fields
                     chk.ob('R20.2', "%s reads field `%s` of the interpolator directly" % (strip_generics(cur['def']), x['name']), False, line_of(x),
                            'field-%s-%s' % (path.split(' as ')[0], x['name']))
         chk.ob('R20.2', "%s (with its private helpers) reaches the interpolator through every kind of bracket accessor (found %d call sites of %s)" %
